@@ -734,12 +734,25 @@ func c15Cycle(rng *rand.Rand, rec *c15Rec, s *Server, cfg c15Cfg, mode string, c
 		go callShutdown()
 	}
 	var err error
-	select {
-	case err = <-sdErr:
-		runningAtReturn = running.Load()
-	case <-time.After(20 * time.Second):
-		vfInfra("c15: Shutdown did not return within 20s")
-		return 0, "", "", true
+	sdl := time.Now().Add(20 * time.Second)
+waitSD:
+	for {
+		select {
+		case err = <-sdErr:
+			runningAtReturn = running.Load()
+			break waitSD
+		case <-time.After(time.Millisecond):
+		}
+		if v := s.open.Load(); v < 0 {
+			// s.open counts Serve calls and connections: it can never be negative, and Shutdown, which waits
+			// for it to become 0, will not return any more (this Server is abandoned)
+			return nreqOf(clients), fmt.Sprintf("open-negative mode=%s mixed=%v", mode, cfg.mixed),
+				fmt.Sprintf("s.open = %d while Shutdown is waiting for it to reach 0", v), true
+		}
+		if time.Now().After(sdl) {
+			vfInfra("c15: Shutdown did not return within 20s")
+			return 0, "", "", true
+		}
 	}
 	serveReturned := 0
 	for i := 1; i <= nl; i++ {
